@@ -127,7 +127,8 @@ class _TimeStub:
 
 def setup(sym, fail_on):
     keys = ['k1','k2']
-    collide = sym.flag('collide')
+    # the statement excludes a caller nesting get_set on two keys whose hashes collide (the lock table is hash-indexed by design)
+    collide = sym.flag('collide') if not any(op == 'getn' for op,_ in prog) else False
     slot_of = {'k1': 3, 'k2': 3 if collide else 5}
     w = World(sym, keys, slot_of)
     arr = SymArray(w)
@@ -305,6 +306,8 @@ class _SimCache:
 
 def _c19_sched_params(tier):
     progs = [(('get','k1'),('get','k1')), (('get','k1'),('rmv','k1')), (('rmv','k1'),('get','k1')), (('getx','k1'),('get','k1')), (('get','k1'),('get','k2')), (('get','k1'),('rmv','k1'),('get','k1')), (('getb','k1'),('rmv','k1')), (('getb','k1'),('get','k1'))]
+    # 'getn': a get_set on k1 whose body opens another get_set on k2 (nested reads) while another caller removes / reads
+    progs = progs + [(('getn','k1'),('rmv','k1')), (('getn','k1'),('rmv','k2')), (('getn','k1'),('get','k2'))]
     if tier == 'quick': return [dict(prog=list(map(list,p)), delays=1) for p in progs]
     more = [(('get','k1'),('get','k1'),('get','k1')), (('rmv','k1'),('rmv','k1'),('get','k1')), (('getx','k1'),('rmv','k1'),('get','k1')), (('get','k1'),('get','k2'),('rmv','k1'))]
     return [dict(prog=list(map(list,p)), delays=2) for p in progs+more] + [dict(prog=list(map(list,p)), delays=3) for p in progs[:4]]
@@ -316,7 +319,8 @@ def _c19_sched_params(tier):
 def schedules(sym, prog, delays):
     from vf import sim
     sched = sim.Sched()
-    collide = sym.flag('collide')
+    # the statement excludes a caller nesting get_set on two keys whose hashes collide (the lock table is hash-indexed by design)
+    collide = sym.flag('collide') if not any(op == 'getn' for op,_ in prog) else False
     slot_of = {'k1': 3, 'k2': 3 if collide else 5}
     bad, ref = [], [None]
     inner = _SimCache(sched, ref, bad, slot_of)
@@ -347,6 +351,11 @@ def schedules(sym, prog, delays):
                         with cacher.get_set(k, getter_bad if o == 'getx' else getter_ok(f'c{i}s{step}')) as v:
                             sched.wait(None, 'body')
                             if o == 'getb': raise ValueError("body failed")
+                            if o == 'getn':
+                                with cacher.get_set('k2', getter_ok(f'c{i}n{step}')) as v2:
+                                    sched.wait(None, 'body')
+                                    got2 = list(v2)
+                                    if len(got2) != 2 or got2[0][:-1] != got2[1][:-1]: bad.append(f"caller {i} read an incomplete or mixed nested value {got2}")
                             got = list(v)
                             sched.wait(None, 'body')
                             if cacher._array[slot_of[k]] < 1: bad.append(f"caller {i} inside its block on {k} but the counter is {cacher._array[slot_of[k]]}")
